@@ -3,6 +3,7 @@ TLC model checking of the family, execution campaigns of the real SDK, trace val
 from __future__ import annotations
 
 import json
+from harness import detsched as ds
 import os
 import random
 
@@ -210,6 +211,9 @@ def gen_scenario(rng: random.Random, prog, *, crash=0.5, faults=0.0, paging=0.5,
         if rng.random() < ext_fail:
             outs = ["FAILED", "TIMED_OUT", "STOPPED"] + (["CANCELLED"] if kind == "cb" else [])
             ext[p] = [rng.choice(outs), "boom-" + p]
+            how = random.Random(sc["seed"] ^ (sum(map(ord, p)) * 131)).choice([None, None, "noerr", "nomsg"])    # derived generator
+            if how:
+                ext[p].append(how)      # service-generated failures: a status without an error object / an error type without a message
         elif kind == "cb" and rng.random() < 0.35:
             ext[p] = ["SUCCEEDED", rng.choice(["", "0", "null", " ", "false"])]     # payloads that are falsy / look like JSON
     if ext:
@@ -233,10 +237,24 @@ def run_campaign(ctx, items):
     """items: iterable of (prog, scenario). Returns list of finished Execution objects."""
     out = []
     for prog, sc in items:
-        e = Execution(prog, sc).run()
+        try:
+            e = Execution(prog, sc).run()
+        except ds.SchedulerError as ex:
+            if "wall-clock watchdog" not in str(ex):
+                raise
+            # a thread of the SDK ran for a minute of real time without reaching any synchronisation primitive, clock read or API call:
+            # the invocation spins without ever blocking.  The process cannot be used any further (the thread is still running).
+            ctx.violation("invocation-spins-without-blocking",
+                          f"an invocation keeps a thread busy forever without reaching a scheduling point: {str(ex)[:200]}",
+                          {"kind": "execution", "prog": prog, "scenario": sc, "outcomes": [], "final": "SPIN", "choices": None})
+            raise StopCheck() from None
         ctx.case(("exec", json.dumps(prog, sort_keys=True), json.dumps(sc, sort_keys=True)))
         out.append(e)
     return out
+
+
+class StopCheck(Exception):
+    """the check cannot go on (a violation was recorded); lib/common.main_for finishes with the verdict"""
 
 
 def scen_of(e):
